@@ -18,6 +18,7 @@ import (
 	"sort"
 	"strconv"
 	"strings"
+	"time"
 
 	"Havoc/cmd/server"
 	"Havoc/pkg/agent"
@@ -430,4 +431,30 @@ func (ts *TS) DBFault(table, op string) (undo func(), err error) {
 		d.Exec("DROP TRIGGER " + name)
 		d.Close()
 	}, nil
+}
+
+// DBIdle asks, through a second connection that does not wait, for the exclusive lock on
+// the SQLite file and gives it back at once.  Between two operations nobody may be
+// holding the file: a statement or result set that was left open keeps its connection's
+// shared lock for the rest of the process, and from then on every write of every other
+// pooled connection waits out the busy timeout and fails (the teamserver only logs it).
+// The error names what SQLite answered.
+func (ts *TS) DBIdle() error {
+	d, err := sql.Open("sqlite3", "file:"+filepath.Join(ts.Root, "ts.db")+"?_busy_timeout=0")
+	if err != nil {
+		return nil // cannot probe: says nothing
+	}
+	defer d.Close()
+	d.SetMaxOpenConns(1)
+	// a writer that is just finishing goes away; what was left open stays: ask for two seconds
+	for i := 0; ; i++ {
+		if _, err = d.Exec("BEGIN EXCLUSIVE"); err == nil {
+			d.Exec("ROLLBACK")
+			return nil
+		}
+		if i == 40 {
+			return err
+		}
+		time.Sleep(50 * time.Millisecond)
+	}
 }
